@@ -247,6 +247,29 @@ def run(ctx):
                   selftest=[(STATIC_BIG, "ok"), (b1, "cm-identities"), (b2, "cm-greedy-count")])
     for c, _ in rec:
         ctx.count(("big", c["n"], c["K"], c["E"], c["t"]), c["cm"][0][0] >= 1 and c["cm"][1][0] >= 1)
+    # ---- long curves: the scores of the matrix that cm() ITSELF returns (its element type included) stay in range
+    import kneeliverse.evaluation as ev2
+    import random as _rnd
+    rngL = _rnd.Random(ctx.seed + 919)
+    for n in ((6000, 20000) if ctx.quick else (6000, 20000, 60000, 200000)):
+        P = np.column_stack([np.arange(n, dtype=float), 1000.0 / (1.0 + np.arange(n, dtype=float))])
+        K = np.array(sorted(rngL.sample(range(1, n - 1), 12)))
+        for perfect in (True, False):
+            E = P[K] if perfect else P[np.array(sorted(rngL.sample(range(1, n - 1), 9)))]
+            case = {"kind": "long", "n": n, "knees": K.tolist(), "expected_idx": [int(v) for v in E[:, 0]], "perfect": perfect}
+            try:
+                m = ev2.cm(P, K, E, 0.01)
+                sc = {"accuracy": float(ev2.accuracy(m)), "f1score": float(ev2.f1score(m)), "mcc": float(ev2.mcc(m))}
+            except Exception as ex:
+                ctx.violation("returns", case, {"raised": repr(ex)[:200]})
+                continue
+            ctx.count(("long", n, perfect), True)
+            lo = {"accuracy": 0.0, "f1score": 0.0, "mcc": -1.0}
+            for name, v in sc.items():
+                if not (lo[name] - 1e-12 <= v <= 1.0 + 1e-12):
+                    ctx.violation("score-range", case, {"fn": name, "got": v, "cm": np.asarray(m).tolist()})
+                elif perfect and abs(v - 1.0) > 1e-12:
+                    ctx.violation("one-on-perfect", case, {"fn": name, "got": v, "cm": np.asarray(m).tolist()})
     # ---- growth beyond C19: the R2 neighbourhood searches of evaluation.py (notes only)
     growth.safe(ctx, growth.neighbourhood)
     growth.safe(ctx, growth.accuracy_knee_t)
@@ -264,7 +287,30 @@ def _validate_big(ctx, cases, meta, selftest=None):
         ctx.violation(vs[0][0], {"kind": "Tbig", "big": meta[cid]["big"]}, {"verdict": [str(v)[:200] for v in vs[0]]})
 
 
+def _replay_long(ctx, c):
+    import kneeliverse.evaluation as ev2
+    n = c["n"]
+    P = np.column_stack([np.arange(n, dtype=float), 1000.0 / (1.0 + np.arange(n, dtype=float))])
+    K = np.array(c["knees"])
+    E = P[np.array(c["expected_idx"])]
+    try:
+        m = ev2.cm(P, K, E, 0.01)
+        sc = {"accuracy": float(ev2.accuracy(m)), "f1score": float(ev2.f1score(m)), "mcc": float(ev2.mcc(m))}
+    except Exception as ex:
+        ctx.violation("returns", c, {"raised": repr(ex)[:200]})
+        return
+    lo = {"accuracy": 0.0, "f1score": 0.0, "mcc": -1.0}
+    for name, v in sc.items():
+        if not (lo[name] - 1e-12 <= v <= 1.0 + 1e-12):
+            ctx.violation("score-range", c, {"fn": name, "got": v})
+        elif c["perfect"] and abs(v - 1.0) > 1e-12:
+            ctx.violation("one-on-perfect", c, {"fn": name, "got": v})
+
+
 def replay(ctx, obj):
+    if obj["case"].get("kind") == "long":
+        _replay_long(ctx, obj["case"])
+        return
     if obj["case"].get("kind") == "Tbig":
         c, m = _record_big(tuple(obj["case"]["big"]))
         _validate_big(ctx, [c], {c["id"]: m})
